@@ -668,6 +668,16 @@ func TestRegress(t *testing.T) {
 		if err != nil {
 			continue
 		}
+		var head struct {
+			Test     string    `json:"test"`
+			Scenario innerScen `json:"scenario"`
+		}
+		if json.Unmarshal(b, &head) == nil && head.Test == "TestHedgeInnerTimeout" {
+			for i := 0; i < reps; i++ {
+				runInnerTimeout(t, "TestRegress", st, head.Scenario)
+			}
+			continue
+		}
 		var sc scenario
 		_ = json.Unmarshal(b, &sc)
 		if len(sc.Outcomes) == 0 {
